@@ -163,6 +163,30 @@ fn sdes_item_kind(kind: u64, len: usize, salt: u64) -> Option<Item> {
     }
 }
 
+/// list sizes that cross every counter width a maintainer might pick (u4..u16) and the 17-wide NACK window
+pub fn many_counts() -> Vec<usize> {
+    let mut v: Vec<usize> = (4..=40).collect();
+    v.extend_from_slice(&[63, 64, 65, 127, 128, 129, 255, 256, 257, 300, 1000]);
+    v
+}
+
+/// items whose encoded lengths sum to exactly `bytes` (>= 2)
+fn fill_items(bytes: usize, salt: u64) -> Vec<Item> {
+    let mut rem = bytes;
+    let mut items = Vec::new();
+    let mut i = 0u64;
+    while rem >= 2 {
+        let mut l = (rem - 2).min(255);
+        if rem - (2 + l) == 1 {
+            l -= 1;
+        }
+        items.push(Item::new(1 + ((salt + i) % 7) as u8, &val(l, salt ^ i)));
+        rem -= 2 + l;
+        i += 1;
+    }
+    items
+}
+
 pub fn sdes_spaces(tier: Tier, seed: u64) -> Vec<CfgSpace> {
     let mut v = Vec::new();
     let s = seed;
@@ -252,6 +276,48 @@ pub fn sdes_spaces(tier: Tier, seed: u64) -> Vec<CfgSpace> {
         Pkt::Sdes { chunks, pad: PAD_EDGE[c[4] as usize] }
     }));
 
+    // (g) many items in one chunk: item counts well above what fits a byte-sized counter or a 255-byte
+    // chunk (chunk lengths of several KiB), in the only chunk / the first of two / the last of three
+    let counts = many_counts();
+    let nc = counts.len() as u64;
+    let r = Radix::new(&[nc, 3, 3, 2]);
+    let rl = r.len();
+    v.push(CfgSpace::new("sdes-many-items", rl, move |idx| {
+        let c = r.coords(idx);
+        let n = counts[c[0] as usize];
+        let items: Vec<Item> = (0..n)
+            .map(|i| {
+                let len = match c[1] {
+                    0 => 0,
+                    1 => i % 4,
+                    _ => (i * 7) % 11,
+                };
+                sdes_item_kind(((i + c[1] as usize) % 8) as u64, len, (i as u64) ^ idx).unwrap()
+            })
+            .collect();
+        let big = Chunk { ssrc: 0x0000_0001, items };
+        let small = |s: u32| Chunk { ssrc: s, items: vec![Item::new(1, b"ab")] };
+        let chunks = match c[2] {
+            0 => vec![big],
+            1 => vec![big, small(0x0000_0100)],
+            _ => vec![small(0x7700_0000), small(0), big],
+        };
+        Pkt::Sdes { chunks, pad: if c[3] == 0 { 0 } else { 8 } }
+    }));
+
+    // (h) at and just under the largest representable SDES packet (65536 words), as one chunk and as 31 chunks
+    v.push(CfgSpace::new("sdes-near-size-limit", 8, move |idx| {
+        let total = [262_140usize, 262_136, 131_072, 65_540][(idx % 4) as usize]; // bytes of chunks (packet = 4 + this)
+        let nchunks = if idx < 4 { 1 } else { 31 };
+        let per = (total / nchunks) & !3;
+        let mut chunks = Vec::new();
+        for k in 0..nchunks {
+            let want = if k + 1 == nchunks { total - per * (nchunks - 1) } else { per };
+            chunks.push(Chunk { ssrc: 0x0101_0101 * (k as u32 + 1), items: fill_items(want - 5, idx + k as u64) });
+        }
+        Pkt::Sdes { chunks, pad: 0 }
+    }));
+
     if tier == Tier::Thorough {
         // (f) three items in one chunk: lengths (0..=40)^3 so every residue triple occurs, all paddings on a subset
         let pads = pad_all();
@@ -298,12 +364,27 @@ pub fn app_spaces(tier: Tier, _seed: u64) -> Vec<CfgSpace> {
     let pads = pad_all();
     let r = Radix::new(&[ssrcs.len() as u64, 32, APP_NAMES.len() as u64, pl.len() as u64, 64]);
     let rl = r.len();
-    vec![CfgSpace::new("app-fields", rl, move |idx| {
-        let c = r.coords(idx);
-        let n = pl[c[3] as usize];
-        let data: Vec<u8> = (0..n).map(|i| (i as u64 * 13 + idx) as u8).collect();
-        Pkt::App { ssrc: ssrcs[c[0] as usize], subtype: c[1] as u8, name: APP_NAMES[c[2] as usize].to_string(), data, pad: pads[c[4] as usize] }
-    })]
+    let big: Vec<usize> = vec![252, 256, 260, 1020, 1024, 1028, 65_528, 65_532, 65_536, 65_540, 262_120, 262_128, 262_132];
+    let nb = big.len() as u64;
+    vec![
+        CfgSpace::new("app-fields", rl, move |idx| {
+            let c = r.coords(idx);
+            let n = pl[c[3] as usize];
+            let data: Vec<u8> = (0..n).map(|i| (i as u64 * 13 + idx) as u8).collect();
+            Pkt::App { ssrc: ssrcs[c[0] as usize], subtype: c[1] as u8, name: APP_NAMES[c[2] as usize].to_string(), data, pad: pads[c[4] as usize] }
+        }),
+        // payload sizes across the 8-bit and 16-bit boundaries of the byte and word counts, up to the largest
+        // representable packet (65536 words); the padding is dropped where it would not fit any more
+        CfgSpace::new("app-large-payloads", nb * 3, move |idx| {
+            let n = big[(idx % nb) as usize];
+            let mut pad = [0u8, 4, 252][(idx / nb) as usize];
+            if 12 + n + pad as usize > 262_144 {
+                pad = (262_144 - 12 - n).min(252) as u8 & !3;
+            }
+            let data: Vec<u8> = (0..n).map(|i| (i as u64 * 13 + idx) as u8).collect();
+            Pkt::App { ssrc: 0x0A0B_0C0D, subtype: 31, name: "big".to_string(), data, pad }
+        }),
+    ]
 }
 
 // ------------------------------------------------------------------------------------------
@@ -456,12 +537,66 @@ pub fn pli_spaces(_tier: Tier, _seed: u64) -> Vec<CfgSpace> {
     })]
 }
 
+/// long entry lists: counts across every counter width, up to the largest representable packet
+pub fn fb_large_spaces() -> Vec<CfgSpace> {
+    let mut v = Vec::new();
+    let mut sli_n = many_counts();
+    sli_n.extend_from_slice(&[16_383, 16_384, 65_532, 65_533]);
+    let n = sli_n.len() as u64;
+    v.push(CfgSpace::new("sli-long-lists", n * 2, move |idx| {
+        let k = sli_n[(idx % n) as usize];
+        let mut pad = if idx / n == 0 { 0u8 } else { 4 };
+        if 12 + 4 * k + pad as usize > 262_144 {
+            pad = 0;
+        }
+        let e = (0..k).map(|i| ((i * 37) as u16 & 0x1FFF, (i * 11 + 1) as u16 & 0x1FFF, (i % 64) as u8)).collect();
+        Pkt::Fb { kind: Kind::Payload, sender: 0x5E4D_3C2B, media: 0x1A2B_3C4D, fci: Fci::Sli(e), pad }
+    }));
+    let mut fir_n = many_counts();
+    fir_n.extend_from_slice(&[8_191, 8_192, 32_765, 32_766]);
+    let n = fir_n.len() as u64;
+    v.push(CfgSpace::new("fir-large-maps", n * 2, move |idx| {
+        let k = fir_n[(idx % n) as usize];
+        let mut pad = if idx / n == 0 { 0u8 } else { 4 };
+        if 12 + 8 * k + pad as usize > 262_144 {
+            pad = 0;
+        }
+        // distinct SSRCs, including 0 and values that differ only in their top byte
+        let e = (0..k).map(|i| (((i as u32) << 24) ^ (i as u32).wrapping_mul(0x0001_0003), (i % 251) as u8)).collect();
+        Pkt::Fb { kind: Kind::Payload, sender: 0x5E4D_3C2B, media: 0x1A2B_3C4D, fci: Fci::Fir(e), pad }
+    }));
+    let mut rl: Vec<usize> = (41..=48).collect();
+    rl.extend(253..=260);
+    rl.extend(1019..=1030);
+    rl.extend(65_529..=65_540);
+    rl.extend_from_slice(&[262_127, 262_128, 262_129, 262_130]);
+    let n = rl.len() as u64;
+    v.push(CfgSpace::new("rpsi-long-strings", n * 3, move |idx| {
+        let k = rl[(idx % n) as usize];
+        let overrun = [0u8, 5, 8][(idx / n) as usize];
+        let data: Vec<u8> = (0..k).map(|i| (i as u8).wrapping_mul(5).wrapping_add(idx as u8) | 1).collect();
+        Pkt::Fb { kind: Kind::Payload, sender: 0x5E4D_3C2B, media: 0x1A2B_3C4D, fci: Fci::Rpsi { pt: 96, data, overrun }, pad: 0 }
+    }));
+    // NACK lists of many words: k values spaced 17 and 18 apart (one word each), from three bases
+    let nack_n = many_counts();
+    let n = nack_n.len() as u64;
+    v.push(CfgSpace::new("nack-many-words", n * 2 * 3, move |idx| {
+        let k = nack_n[(idx % n) as usize];
+        let step = if (idx / n) % 2 == 0 { 17u32 } else { 18 };
+        let base = [0u32, 0x1234, 0xFF00][(idx / n / 2) as usize];
+        let seqs: Vec<u16> = (0..k as u32).rev().map(|i| (base + i * step) as u16).collect();
+        Pkt::Fb { kind: Kind::Transport, sender: 0x5E4D_3C2B, media: 0x1A2B_3C4D, fci: Fci::Nack(seqs), pad: if idx % 3 == 0 { 4 } else { 0 } }
+    }));
+    v
+}
+
 pub fn fb_spaces(tier: Tier, seed: u64) -> Vec<CfgSpace> {
     let mut v = nack_spaces(tier, seed);
     v.extend(fir_spaces(tier, seed));
     v.extend(sli_spaces(tier, seed));
     v.extend(rpsi_spaces(tier, seed));
     v.extend(pli_spaces(tier, seed));
+    v.extend(fb_large_spaces());
     // all paddings on one instance of each FCI
     let pads = pad_all();
     v.push(CfgSpace::new("fb-each-fci-x-all-paddings", 5 * 64, move |idx| {
@@ -485,11 +620,23 @@ pub fn unknown_spaces(tier: Tier, _seed: u64) -> Vec<CfgSpace> {
     let pads = pad_all();
     let r = Radix::new(&[pts.len() as u64, 32, 5, 64]);
     let rl = r.len();
-    vec![CfgSpace::new("unknown-type-x-count-x-payload-x-padding", rl, move |idx| {
-        let c = r.coords(idx);
-        let n = (c[2] * 4) as usize;
-        Pkt::Unknown { pt: pts[c[0] as usize], count: c[1] as u8, data: (0..n).map(|i| (i as u64 * 17 + idx) as u8).collect(), pad: pads[c[3] as usize] }
-    })]
+    let big: Vec<usize> = vec![252, 256, 260, 1020, 1024, 1028, 65_528, 65_532, 65_536, 65_540, 262_128, 262_136, 262_140];
+    let nb = big.len() as u64;
+    vec![
+        CfgSpace::new("unknown-type-x-count-x-payload-x-padding", rl, move |idx| {
+            let c = r.coords(idx);
+            let n = (c[2] * 4) as usize;
+            Pkt::Unknown { pt: pts[c[0] as usize], count: c[1] as u8, data: (0..n).map(|i| (i as u64 * 17 + idx) as u8).collect(), pad: pads[c[3] as usize] }
+        }),
+        CfgSpace::new("unknown-large-payloads", nb * 3, move |idx| {
+            let n = big[(idx % nb) as usize];
+            let mut pad = [0u8, 4, 252][(idx / nb) as usize];
+            if 4 + n + pad as usize > 262_144 {
+                pad = (262_144 - 4 - n).min(252) as u8 & !3;
+            }
+            Pkt::Unknown { pt: [207u8, 0, 255][(idx % 3) as usize], count: (idx % 32) as u8, data: (0..n).map(|i| (i as u64 * 17 + idx) as u8).collect(), pad }
+        }),
+    ]
 }
 
 /// Every builder-side configuration space (all of them produce representable configurations,
